@@ -15,6 +15,15 @@ def eval_one(pid, sc):
     """run the scenario (and its twins for the relational properties); returns (clauses, stats, traces)"""
     stats = {}
     res, trace = dyn_rt.run(sc)
+    if sc.get("rerun"):
+        # keep the second run only, with instants counted from its beginning
+        cut = next((i for i, e in enumerate(trace) if e[2] == "rerun"), None)
+        if cut is None:
+            trace = []
+        else:
+            t0 = trace[cut][0]
+            trace = [(e[0] - t0,) + tuple(e[1:]) for e in trace[cut + 1:]]
+        stats["rerun"] = True
     traces = [(sc, res, trace)]
     clauses = []
     if pid == "C06":
@@ -181,6 +190,16 @@ def scenarios(pid, tier, seed):
     if tier == "thorough":
         for sc in dyn_gen.exhaustive_small(rng, budget=12000 if pid == "C06" else 60000):
             out.append(("exhaustive", sc))
+    if pid in ("C01", "C02", "C03", "C07", "C12", "C14"):
+        # the same scheduler object run twice (co_run resets its tasks): the second run is judged
+        for sc in dyn_gen.targeted(pid, rng, n_t // 6) + [dyn_gen.gen_tree(rng, depth=rng.choice([1, 2])) for _ in range(n_r // 8)]:
+            sc = copy.deepcopy(sc)
+            for n, _ in dyn_gen.walk(sc["tree"]):
+                if n["kind"] == "job":
+                    n["coro"] = False          # a coroutine object cannot be awaited twice
+            if dyn_mon.admissible(sc):
+                sc["rerun"] = True
+                out.append(("rerun", sc))
     for i in range(n_r):
         adm = rng.random() < 0.85
         out.append(("random", dyn_gen.gen_tree(rng, depth=rng.choice([1, 2, 2, 3]), admissible=adm or pid == "C03")))
